@@ -424,7 +424,18 @@ class IndexInterp:
         ops = {ast.Add: lambda x, y: x + y, ast.Sub: lambda x, y: x - y, ast.Mult: lambda x, y: x * y, ast.Div: lambda x, y: x / y}
         if type(e.op) not in ops:
             raise AnalysisError("array arithmetic `%s`" % src(e))
-        f = ops[type(e.op)]
+        plain = ops[type(e.op)]
+
+        def f(x, y):
+            if isinstance(x, SymObj) or isinstance(y, SymObj):
+                # entries that are points / expressions of the calculus: the entry-wise operation is the interpreter's own arithmetic
+                self.env["__m_x"], self.env["__m_y"] = x, y
+                try:
+                    return self.ev(ast.BinOp(left=ast.Name(id="__m_x", ctx=ast.Load()), op=type(e.op)(), right=ast.Name(id="__m_y", ctx=ast.Load())))
+                finally:
+                    self.env.pop("__m_x", None)
+                    self.env.pop("__m_y", None)
+            return plain(x, y)
         if not (isinstance(a, Matrix) and isinstance(b, Matrix)) and isinstance(e.op, (ast.Add, ast.Sub)):
             return ("op", type(e.op).__name__, a, b)        # scalar broadcast over an array: kept symbolic
         if isinstance(a, Matrix) and isinstance(b, Matrix):
